@@ -104,8 +104,20 @@ fn known_reason(r: &Repo, line: &str, gix_side: bool) -> Option<&'static str> {
         if gix_side && dir_path.is_some() && ent(p).is_some() {
             return Some("untracked-dir-at-index-file");
         }
+        // the same below such a directory when gix does not fold it (nested repository inside): git folds, then drops
+        if gix_side && r.opts.untracked == b'c' {
+            let mut cur = p.to_vec();
+            while let Some(i) = cur.iter().rposition(|b| *b == b'/') {
+                cur.truncate(i);
+                if ent(&cur).is_some() && node(&cur).map_or(false, |n| n.kind == b'd') {
+                    return Some("untracked-dir-at-index-file");
+                }
+            }
+        }
         // gix does not look into ignored directories, so it cannot know that they are empty
-        let without_files = dir_path.is_some() && !r.nodes.iter().any(|n| below(&n.path, p) && !matches!(n.kind, b'd' | b'r'));
+        // entries named `.git` are skipped by both tools and do not count as content
+        let without_files = dir_path.is_some()
+            && !r.nodes.iter().any(|n| below(&n.path, p) && !matches!(n.kind, b'd' | b'r') && !n.path.ends_with(b"/.git"));
         if gix_side && letter == "!" && without_files {
             return Some("empty-ignored-directory");
         }
@@ -131,17 +143,41 @@ fn known_reason(r: &Repo, line: &str, gix_side: bool) -> Option<&'static str> {
                 return Some("nested-repo-in-untracked-dir");
             }
         }
-        // a sub-directory with nothing but ignored files in it keeps gix from folding its untracked parents unless
-        // ignored entries are folded as well; git folds (`?? d/`)
-        if r.opts.ignored != b't' {
+        // below a directory that is excluded, a negative pattern re-includes nothing in git (prep_exclude stops at
+        // the outermost excluded directory); gix-worktree lets the innermost matched directory decide
+        let is_dir_line = dir_path.is_some();
+        if is_excluded(&r.excl, p, is_dir_line) != is_excluded_git(&r.excl, p, is_dir_line) {
+            return Some("negated-dir-below-excluded-dir");
+        }
+        // "invisible": skipped by name or excluded; a directory whose files are all invisible has no untracked file
+        let invisible = |n: &Node| n.path.ends_with(b"/.git") || is_excluded(&r.excl, &n.path, matches!(n.kind, b'd' | b'r'));
+        let is_file = |n: &Node| !matches!(n.kind, b'd' | b'r');
+        let no_untracked_files = |d: &[u8]| !r.nodes.iter().any(|n| below(&n.path, d) && is_file(n) && !invisible(n));
+        let treeish_empty = |d: &[u8]| !r.nodes.iter().any(|n| below(&n.path, d) && is_file(n) && !n.path.ends_with(b"/.git"));
+        // an empty directory counts as untracked content for gix' folding: a directory with ignored files and an
+        // empty directory folds into an untracked directory (git: ignored directory, or nothing)
+        for d in top(p) {
+            let is_plain_dir = node(&d).map_or(false, |n| n.kind == b'd');
+            if is_plain_dir
+                && !is_excluded(&r.excl, &d, true)
+                && no_untracked_files(&d)
+                && r.nodes.iter().any(|n| n.kind == b'd' && (below(&n.path, &d)) && treeish_empty(&n.path) && !is_excluded(&r.excl, &n.path, true))
+            {
+                return Some("untracked-dir-without-files");
+            }
+        }
+        // a sub-directory with nothing but ignored files (or a stray `.git` file) in it keeps gix from folding its
+        // untracked parents unless ignored entries are folded as well; git folds (`?? d/`)
+        {
             for d in top(p) {
                 let untracked_dir = node(&d).map_or(false, |n| n.kind == b'd') && !r.ents.iter().any(|e| below(&e.path, &d) || e.path == d);
                 if !untracked_dir {
                     continue;
                 }
                 for s in r.nodes.iter().filter(|n| n.kind == b'd' && below(&n.path, &d)) {
-                    let files: Vec<&Node> = r.nodes.iter().filter(|n| below(&n.path, &s.path) && !matches!(n.kind, b'd' | b'r')).collect();
-                    if !files.is_empty() && files.iter().all(|f| is_excluded(&r.excl, &f.path, false)) {
+                    let has_invisible = r.nodes.iter().any(|n| below(&n.path, &s.path) && invisible(n));
+                    let only_dot_git = r.nodes.iter().any(|n| below(&n.path, &s.path) && n.path.ends_with(b"/.git"));
+                    if has_invisible && no_untracked_files(&s.path) && (r.opts.ignored != b't' || only_dot_git) {
                         return Some("ignored-only-subdir-prevents-fold");
                     }
                 }
@@ -275,4 +311,39 @@ pub fn is_excluded(excl: &[u8], path: &[u8], is_dir: bool) -> bool {
         None => own(path, is_dir),
     };
     res == Some(false)
+}
+
+/// Git's rule for the same pattern language: the OUTERMOST ancestor directory with a positive match excludes
+/// everything below it; negative matches of directories are forgotten.
+pub fn is_excluded_git(excl: &[u8], path: &[u8], is_dir: bool) -> bool {
+    for (i, b) in path.iter().enumerate() {
+        if *b == b'/' && own_match(excl, &path[..i], true) == Some(false) {
+            return true;
+        }
+    }
+    own_match(excl, path, is_dir) == Some(false)
+}
+
+/// Some(negative?) for the last pattern matching `p` itself
+fn own_match(excl: &[u8], p: &[u8], is_dir: bool) -> Option<bool> {
+    let mut res = None;
+    for line in excl.split(|b| *b == b'\n') {
+        if line.is_empty() || line[0] == b'#' {
+            continue;
+        }
+        let (neg, l) = if line[0] == b'!' { (true, &line[1..]) } else { (false, line) };
+        let (abs, l) = if l.first() == Some(&b'/') { (true, &l[1..]) } else { (false, l) };
+        let (dir_only, l) = if l.last() == Some(&b'/') { (true, &l[..l.len() - 1]) } else { (false, l) };
+        if l.is_empty() || (dir_only && !is_dir) {
+            continue;
+        }
+        let full = abs || l.contains(&b'/');
+        let (star, l) = if l[0] == b'*' { (true, &l[1..]) } else { (false, l) };
+        let base = p.rsplit(|b| *b == b'/').next().unwrap_or(p);
+        let subject = if full { p } else { base };
+        if if star { subject.ends_with(l) } else { subject == l } {
+            res = Some(neg);
+        }
+    }
+    res
 }
